@@ -9,17 +9,20 @@
 (* An operation is three steps: Call (visible), Lin (INTERNAL: the          *)
 (* operation takes effect atomically, with the sequential semantics of     *)
 (* Alerts.tla - Overlap, MergeAlert - somewhere between call and return),   *)
-(* Ret (visible, with the value fixed at Lin).  Lin of a Put applies the    *)
-(* whole batch to the store and appends one message per alert, in batch     *)
-(* order, to the delivery queues of every registered subscriber: the code   *)
-(* holds the provider mutex from the first store.Set to the last channel    *)
-(* write.  The queues are kept PER LABEL SET: what the statements fix is    *)
-(* the order of the versions of one alert, not the order of different       *)
-(* alerts in a subscriber's channel.  Recv(sub, m) takes the head of sub's  *)
-(* queue of m's label set.  Hence the contract of                           *)
-(* the statements (C13 merge and visibility in submission order, C03 / C14 *)
-(* "the verdict / the group depends on the latest version, not on arrival   *)
-(* order"):                                                                *)
+(* Ret (visible, with the value fixed at Lin).  Lin of a Put applies an     *)
+(* alert to the store AND appends its message to the delivery queues of     *)
+(* every registered subscriber in ONE step: the code holds the provider     *)
+(* mutex from store.Set to the last channel write.  The code does so for    *)
+(* the whole batch (Batch = "atomic": one Lin step per Put); the statements *)
+(* only make the alerts of a batch submissions in body order (Batch =       *)
+(* "alert": one Lin step per alert), so a recorded history that is rejected *)
+(* with "atomic" gets its verdict with "alert".  The queues are kept PER    *)
+(* LABEL SET: what the statements fix is the order of the versions of one   *)
+(* alert, not the order of different alerts in a subscriber's channel.      *)
+(* Recv(sub, m) takes the head of sub's queue of m's label set.  Hence the  *)
+(* contract of the statements (C13: merge and visibility in submission      *)
+(* order; C03 / C14: the verdict / the group depends on the latest version, *)
+(* not on arrival order):                                                  *)
 (*   InOrder    every subscriber receives the versions of one label set in  *)
 (*              the order in which the store applied them, without gaps,   *)
 (*              starting with the version its snapshot showed;             *)
@@ -46,9 +49,10 @@ EXTENDS Alerts
 
 CONSTANTS Fanout,      \* "locked" (the code) | "unlocked"
           Slurp,       \* "atomic" (the code) | "early"
+          Batch,       \* "alert": a Put takes effect alert by alert (in body order) | "atomic": at once (the code)
           Now0         \* the fixed instant of every history
 
-VARIABLES ops,         \* op id -> [k, b, ls, sub, st, res]   (pending operations)
+VARIABLES ops,         \* op id -> [k, b, ls, sub, st, res, i]   (pending operations; i = next alert of b)
           queue,       \* registered subscriber -> label set -> messages written, not yet received
           snap,        \* registered subscriber -> stored alerts written by Subscribe, not yet received
           pend,        \* (Fanout = "unlocked") op id -> channel writes still to do, <<sub, msg>>
@@ -105,22 +109,29 @@ CHInit == /\ applied = [x \in LSets |-> << >>] /\ know = << >> /\ from = << >>
 (* visible: call *)
 Call(o, k, b, x, sub) ==
   /\ o \notin DOMAIN ops
-  /\ ops' = Put(ops, o, [k |-> k, b |-> b, ls |-> x, sub |-> sub, st |-> "called", res |-> << >>])
+  /\ ops' = Put(ops, o, [k |-> k, b |-> b, ls |-> x, sub |-> sub, st |-> "called", res |-> << >>, i |-> 1])
   /\ UNCHANGED <<store, queue, snap, pend>>
 
 (* internal: linearization points *)
 SetOp(o, st, res) == [ops EXCEPT ![o].st = st, ![o].res = res]
 
+\* the alerts of the batch this step applies: the rest of it (the code: one critical section
+\* per batch), or the next one (all the statements ask for: the alerts of a batch are
+\* submissions in body order; no statement makes a batch atomic)
+Chunk(o) == LET b == ops[o].b
+                i == ops[o].i
+            IN SubSeq(b, i, IF Batch = "atomic" THEN Len(b) ELSE i)
 LinPut(o) ==
   /\ ops[o].k \in {"put", "post"} /\ ops[o].st = "called"
-  /\ \E R \in {ApplySeq([st |-> store, out |-> << >>], ops[o].b, 1)} :
+  /\ \E R \in {ApplySeq([st |-> store, out |-> << >>], Chunk(o), 1)} :
        /\ store' = R.st
        /\ IF Fanout = "locked"
             THEN /\ queue' = [s \in Regs |-> [x \in LSets |-> queue[s][x] \o Of(R.out, x)]]
                  /\ pend' = pend
             ELSE /\ queue' = queue
-                 /\ pend' = Put(pend, o, Writes(R.out, SetSeq(Regs)))
-  /\ ops' = SetOp(o, "lin", << >>)
+                 /\ pend' = Put(pend, o, (IF o \in DOMAIN pend THEN pend[o] ELSE << >>) \o Writes(R.out, SetSeq(Regs)))
+  /\ ops' = [ops EXCEPT ![o].i = @ + Len(Chunk(o)),
+                        ![o].st = IF ops[o].i + Len(Chunk(o)) > Len(ops[o].b) THEN "lin" ELSE "called"]
   /\ snap' = snap
 
 \* (unlocked fan-out only) one channel write of a Put that has released the mutex
@@ -191,7 +202,7 @@ Recv(sub, m) ==
 (* history variables *)
 StoredAt(x) == x \in DOMAIN store
 HLinPut(o) ==
-  LET R == ApplySeq([st |-> store, out |-> << >>], ops[o].b, 1)
+  LET R == ApplySeq([st |-> store, out |-> << >>], Chunk(o), 1)
   IN /\ applied' = [x \in LSets |-> applied[x] \o SelectSeq(R.out, LAMBDA m : m.ls = x)]
      /\ UNCHANGED <<know, from>>
 HLinSub(o) ==
